@@ -164,3 +164,16 @@ package events
 //@   assigns nothing
 //@   ensures c > 0
 
+
+// ---------------------------------------------------------------- streaming hand-off (sequential part only)
+
+// publishing visits every registered stream (the loop is never left early) and each visit either hands the event to that
+// stream's own local channel or evicts that stream; the goroutines that drain the channels are outside this technique
+//@ func (e *EventStreaming) PublishEvent(event *si.EventRecord)
+//@   props C20
+//@   sweep
+//@   mode nopanic=off
+//@   loop 1: exhaustive
+//@   loop 1: each nsends() + ncalls(events.EventStreaming.removeEventStream) == iter(nsends() + ncalls(events.EventStreaming.removeEventStream)) + 1
+//@   at[own] send chan#1: assert arg0 == details.local && arg1 == event
+//@   at[evicted] call events.EventStreaming.removeEventStream#1: assert arg0 == e && arg1 == consumer
